@@ -93,6 +93,10 @@ Enum = _enum.Enum
 # option sets
 # --------------------------------------------------------------------------
 BASE = dict(case=False, strty=False, numty=False, sig=None, note=False, trunc=None, tz=None, enum=False)
+# other accepted SHAPES of the same options (direct oracle only; absent keys = the common shape):
+#   groups  = "numbers" | "strings" | "intfloat" | "strbytes": ignore_type_in_groups=[...], the general spelling of the type-ignoring options
+#   tzshape = "zoneinfo": default_timezone given as a zoneinfo.ZoneInfo with the same fixed offset (+05:30 / +05:45 / UTC)
+ZONES = {330: "Asia/Kolkata", 345: "Asia/Kathmandu", 0: "UTC"}
 MODELLED = ("case", "strty", "numty", "sig")
 
 
@@ -112,12 +116,14 @@ def name_of(sp):
     if sp["trunc"]:
         out.append("trunc_" + sp["trunc"])
     if sp["tz"] is not None:
-        out.append("tz%d" % sp["tz"])
+        out.append("tz%d%s" % (sp["tz"], "zi" if sp.get("tzshape") == "zoneinfo" else ""))
+    if sp.get("groups"):
+        out.append("groups_" + sp["groups"])
     return "+".join(out) or "default"
 
 
 def is_modelled(sp):
-    return not (sp["note"] or sp["trunc"] or sp["tz"] is not None or sp["enum"])
+    return not (sp["note"] or sp["trunc"] or sp["tz"] is not None or sp["enum"] or sp.get("groups") or sp.get("tzshape"))
 
 
 def kwargs_of(sp):
@@ -137,13 +143,22 @@ def kwargs_of(sp):
         kw["truncate_datetime"] = sp["trunc"]
     if sp["tz"] is not None:
         kw["default_timezone"] = datetime.timezone(datetime.timedelta(minutes=sp["tz"]))
+        if sp.get("tzshape") == "zoneinfo" and sp["tz"] in ZONES:
+            import zoneinfo
+            kw["default_timezone"] = zoneinfo.ZoneInfo(ZONES[sp["tz"]])
     if sp["enum"]:
         kw["use_enum_value"] = True
+    if sp.get("groups"):
+        from deepdiff import DeepDiff
+        kw["ignore_type_in_groups"] = {"numbers": [DeepDiff.numbers], "strings": [DeepDiff.strings], "intfloat": [(int, float)],
+                                       "strbytes": [(str, bytes)]}[sp["groups"]]
     return kw
 
 
 def c11_spec(sp):
     """the option set in c11's vocabulary (for its generated normaliser)"""
+    if sp.get("groups"):        # the normaliser alters what the corresponding flag option ignores
+        sp = dict(sp, numty=sp["numty"] or sp["groups"] in ("numbers", "intfloat"), strty=sp["strty"] or sp["groups"] in ("strings", "strbytes"))
     return C11.mk(case=sp["case"], strty=sp["strty"], numty=sp["numty"], sig=sp["sig"], trunc=sp["trunc"], tz=sp["tz"], enum=sp["enum"])
 
 
@@ -781,6 +796,10 @@ FEATURES = [
     ("C12-date-key-cleaning-TypeError",
      lambda t1, t2, sp, c: cleaning(sp) and (sp["sig"] is not None or sp["numty"]) and any(_is_dtlike(k) for k in all_keys2(t1, t2)),
      both_keys(lambda k: _is_dtlike(k), lambda k: "dtk<%s %s>" % (type(k).__name__, k))),
+    ("C12-type-groups-not-in-deephash",
+     lambda t1, t2, sp, c: bool(sp.get("groups")),
+     lambda t1, t2, sp: (t1, t2, dict(sp, groups=None, numty=sp["numty"] or sp["groups"] in ("numbers", "intfloat"),
+                                      strty=sp["strty"] or sp["groups"] in ("strings", "strbytes")))),
     ("C12-decimal-exponent",
      lambda t1, t2, sp, c: any(isinstance(a, Decimal) for a in all_atoms2(t1, t2)),
      both(_dec_norm)),
@@ -827,6 +846,7 @@ PREDICTS = {
     "C12-timedelta-hash-TypeError": lambda h, d, x: h == "X",
     "C12-truncate-date-timedelta-raises": lambda h, d, x: d in ("EXC:TypeError", "EXC:AttributeError"),
     "C12-date-key-cleaning-TypeError": lambda h, d, x: d == "EXC:TypeError",
+    "C12-type-groups-not-in-deephash": LENIENT,
     "C12-decimal-exponent": LENIENT,
     # the diff engine's shared table hides a difference (lenient); the hash engine's own table can also make the
     # hashes of two different values EQUAL, but only through an alias inside ONE of the two values
@@ -1866,8 +1886,8 @@ def run(ctx):
         t_last[0] = now
     replay_witnesses(ctx)
     mspecs = modelled_specs(rng)
-    n_model = 300 if ctx.thorough else 34          # pairs per modelled option set and family mix
-    n_rich = 500 if ctx.thorough else 60
+    n_model = 240 if ctx.thorough else 34          # pairs per modelled option set and family mix
+    n_rich = 400 if ctx.thorough else 60
     jobs = []
     for t1, t2, sp in FIXED:
         for rep in (False, True):
@@ -1920,11 +1940,22 @@ def run(ctx):
         rich.append(("enumx", t1, t2, sp, rng.random() < 0.5, False))
     for t1, t2, sp in enum_vs_plain_pairs(rng, 400 if ctx.thorough else 90):
         rich.append(("enumty", t1, t2, sp, rng.random() < 0.5, False))
-    dspecs = [mk(trunc="day"), mk(trunc="hour"), mk(trunc="hour", tz=330), mk(trunc="day", tz=-300), mk(trunc="minute"), mk(tz=345), mk(trunc="day", case=True)]
+    dspecs = [mk(trunc="day"), mk(trunc="hour"), mk(trunc="hour", tz=330), mk(trunc="day", tz=-300), mk(trunc="minute"), mk(tz=345), mk(trunc="day", case=True),
+              dict(mk(trunc="hour", tz=330), tzshape="zoneinfo"), dict(mk(tz=345), tzshape="zoneinfo"), dict(mk(trunc="day", tz=0), tzshape="zoneinfo")]
     for i in range(400 if ctx.thorough else 70):
         sp = dspecs[i % len(dspecs)]
         t1, t2, _log = gen_dt_zones(rng, sp)
         rich.append(("dtzone", t1, t2, sp, rng.random() < 0.5, False))
+    # ignore_type_in_groups: the general spelling of the type-ignoring options, alone and combined
+    gspecs = [dict(mk(), groups=g) for g in ("numbers", "strings", "intfloat", "strbytes")] + \
+        [dict(mk(case=True), groups="strings"), dict(mk(sig=1), groups="numbers"), dict(mk(enum=True), groups="intfloat"), dict(mk(strty=True), groups="numbers")]
+    for i in range(320 if ctx.thorough else 64):
+        sp = gspecs[i % len(gspecs)]
+        t1, t2, _log = gen_case_values(rng, ["alt", "near", "alt", "rand"][i % 4], sp, rich=(i % 3 == 0))
+        rich.append(("groups", t1, t2, sp, rng.random() < 0.5, False))
+    for t1, t2, g in [(1, 1.0, "intfloat"), ({"k": 1}, {"k": 1.0}, "numbers"), ([1, "x"], ["x", 1.0], "numbers"), ("a", b"a", "strbytes"), ({"k": "a"}, {"k": b"a"}, "strings"),
+                      ({1: "x"}, {1.0: "x"}, "numbers"), ({"a"}, {b"a"}, "strings"), (1, 2.0, "intfloat"), ("a", b"b", "strings")]:
+        rich.append(("fixed", t1, t2, dict(mk(), groups=g), False, False))
     kspecs = [mk(case=True, sig=2), mk(strty=True, sig=1), mk(case=True, sig=0), mk(case=True, strty=True, sig=3), mk(case=True), mk(sig=2), mk(case=True, sig=2, numty=True)]
     for i in range(400 if ctx.thorough else 70):
         sp = kspecs[i % len(kspecs)]
@@ -1947,7 +1978,7 @@ def run(ctx):
             if in_yuniverse(t1) and in_yuniverse(t2) and not (sp["enum"] and enum_meets_container(t1, t2)):
                 ypairs.append(("ygen", t1, t2, sp, rng.random() < 0.5))
     for fam, t1, t2, sp, rep, _w in rich:
-        if fam != "fixed" and not sp.get("share") and y_listfree(t1) and y_listfree(t2) and in_yuniverse(t1) and in_yuniverse(t2) \
+        if fam != "fixed" and not sp.get("share") and not sp.get("groups") and not sp.get("tzshape") and y_listfree(t1) and y_listfree(t2) and in_yuniverse(t1) and in_yuniverse(t2) \
                 and not (sp["enum"] and enum_meets_container(t1, t2)):
             ypairs.append(("rich:" + fam, t1, t2, sp, rep))
     lap("generate")
